@@ -87,15 +87,20 @@ GuardAsks(e)  == <<e[1], e[2], e[5], e[6], e[7]>>
 ConfigSeen(e) == <<e[1], e[2], e[3], e[4]>>
 LifePays(e)   == <<e[1], e[2], Map(e[9], Pay)>>
 
+\* what a callback saw is compared only where the same callbacks ran (who ran is a projection of its own)
 CheckEvents(n, ev, obsEv) ==
+    LET sameGuards == Map(SelectSeq(ev, IsGuard), Who) = Map(SelectSeq(obsEv, IsGuard), Who)
+        sameLife   == Map(SelectSeq(ev, IsLife), Who) = Map(SelectSeq(obsEv, IsLife), Who)
+        sameSeers  == Map(SelectSeq(ev, SeesConfig), Who) = Map(SelectSeq(obsEv, SeesConfig), Who)
+    IN
     /\ Diff(n, "ev.traverse",       Map(SelectSeq(ev, IsTraverse), Who),        Map(SelectSeq(obsEv, IsTraverse), Who))
     /\ Diff(n, "ev.guard",          Map(SelectSeq(ev, IsGuard), Who),           Map(SelectSeq(obsEv, IsGuard), Who))
-    /\ Diff(n, "ev.guard.pending",  Map(SelectSeq(ev, IsGuard), GuardSees),     Map(SelectSeq(obsEv, IsGuard), GuardSees))
-    /\ Diff(n, "ev.guard.payload",  Map(SelectSeq(ev, IsGuard), GuardPays),     Map(SelectSeq(obsEv, IsGuard), GuardPays))
-    /\ Diff(n, "ev.guard.queries",  Map(SelectSeq(ev, IsGuard), GuardAsks),     Map(SelectSeq(obsEv, IsGuard), GuardAsks))
-    /\ Diff(n, "ev.config",         Map(SelectSeq(ev, SeesConfig), ConfigSeen), Map(SelectSeq(obsEv, SeesConfig), ConfigSeen))
+    /\ sameGuards => Diff(n, "ev.guard.pending",  Map(SelectSeq(ev, IsGuard), GuardSees),     Map(SelectSeq(obsEv, IsGuard), GuardSees))
+    /\ sameGuards => Diff(n, "ev.guard.payload",  Map(SelectSeq(ev, IsGuard), GuardPays),     Map(SelectSeq(obsEv, IsGuard), GuardPays))
+    /\ sameGuards => Diff(n, "ev.guard.queries",  Map(SelectSeq(ev, IsGuard), GuardAsks),     Map(SelectSeq(obsEv, IsGuard), GuardAsks))
+    /\ sameSeers  => Diff(n, "ev.config",         Map(SelectSeq(ev, SeesConfig), ConfigSeen), Map(SelectSeq(obsEv, SeesConfig), ConfigSeen))
     /\ Diff(n, "ev.life",           Map(SelectSeq(ev, IsLife), Who),            Map(SelectSeq(obsEv, IsLife), Who))
-    /\ Diff(n, "ev.life.payload",   Map(SelectSeq(ev, IsLife), LifePays),       Map(SelectSeq(obsEv, IsLife), LifePays))
+    /\ sameLife   => Diff(n, "ev.life.payload",   Map(SelectSeq(ev, IsLife), LifePays),       Map(SelectSeq(obsEv, IsLife), LifePays))
     /\ Diff(n, "ev.plan",           Map(SelectSeq(ev, IsPlanCb), Who),          Map(SelectSeq(obsEv, IsPlanCb), Who))
     /\ Diff(n, "ev.report",         Map(SelectSeq(ev, IsReport), Who),          Map(SelectSeq(obsEv, IsReport), Who))
     /\ Diff(n, "ev.all",            Map(ev, Who),                               Map(obsEv, Who))
@@ -133,9 +138,13 @@ Monitors(n, pre, m, rec, entered, src) ==
        ELSE TRUE
     \* C13 : nothing pending between calls; isScheduled is isResumable
     /\ IF rec.a[1] = "del" THEN TRUE
-       ELSE /\ IF post.pe = 0 THEN TRUE ELSE Fail(n, "mon.idle.pe", post.pe)
-            /\ IF post.px = 0 THEN TRUE ELSE Fail(n, "mon.idle.px", post.px)
-            /\ IF post.pc = 0 THEN TRUE ELSE Fail(n, "mon.idle.pc", post.pc)
+       ELSE \* open finding D10: isPendingExit / isPendingChange evaluate `prong == active && prong != requested` /
+            \* `requested != active` also for regions without any request; an answer that equals that formula on the
+            \* OBSERVED state is the known finding, any other non-empty answer is not
+            LET o == FromObs(<<FALSE, post>>) IN
+            /\ IF post.pe = 0 THEN TRUE ELSE Fail(n, "mon.idle.pe", post.pe)
+            /\ IF post.px = 0 THEN TRUE ELSE Fail(n, IF post.px = PendXMask(o) THEN "mon.idle.px.D10" ELSE "mon.idle.px", post.px)
+            /\ IF post.pc = 0 THEN TRUE ELSE Fail(n, IF post.pc = PendCMask(o) THEN "mon.idle.pc.D10" ELSE "mon.idle.pc", post.pc)
             /\ IF post.isS = post.isR THEN TRUE ELSE Fail(n, "mon.scheduled", <<post.isS, post.isR>>)
     \* C08 : a load reproduces the saved configuration and delivers exit / enter to what stops / starts being active
     /\ IF rec.a[1] = "load" /\ UnpackBytes(Tail(rec.a))[1] = 1
